@@ -80,8 +80,17 @@ def closure(succ, starts):
     return out
 
 
-def build(n, edges, cls=PureScheduler, forever=(), critical=(), sched_kw=None):
-    jobs = [J('j%d' % i, forever=(i in forever), critical=(i in critical)) for i in range(n)]
+def build(n, edges, cls=PureScheduler, forever=(), critical=(), sched_kw=None, kinds=None):
+    """kinds[i]: 'j' atomic job, 'e' empty nested Scheduler, 's' nested Scheduler holding one job"""
+    jobs = []
+    for i in range(n):
+        k = (kinds or 'j' * n)[i]
+        if k == 'j':
+            jobs.append(J('j%d' % i, forever=(i in forever), critical=(i in critical)))
+        elif k == 'e':
+            jobs.append(Scheduler(label='e%d' % i))
+        else:
+            jobs.append(Scheduler(J('in%d' % i), label='s%d' % i))
     for a, b in edges:
         jobs[a].requires(jobs[b])
     s = cls(*jobs, **(sched_kw or {}))
@@ -109,6 +118,17 @@ def c15_cases(tier, rng):
         n = rng.randint(5, 8)
         edges = random_digraph(rng, n, rng.choice([0.1, 0.2, 0.35]))
         yield {'kind': 'c15', 'n': n, 'edges': edges, 'place': rng.choice(['pure', 'flat', 'nested'])}
+    # members that are themselves nested schedulers (empty ones included: an empty Scheduler is falsy)
+    for n in range(1, 4):
+        for edges in all_digraphs(n):
+            for kinds in itertools.product('jes', repeat=n):
+                if set(kinds) == {'j'}:
+                    continue
+                yield {'kind': 'c15', 'n': n, 'edges': edges, 'place': 'flat', 'kinds': ''.join(kinds)}
+    for _ in range(k):
+        n = rng.randint(4, 6)
+        yield {'kind': 'c15', 'n': n, 'edges': random_digraph(rng, n, rng.choice([0.15, 0.3])),
+               'place': rng.choice(['flat', 'nested']), 'kinds': ''.join(rng.choice('jjes') for _ in range(n))}
     for _ in range(k // 3):
         n = rng.randint(2, 6)
         yield {'kind': 'c15-mutate', 'n': n, 'edges': random_dag(rng, n, 0.4),
@@ -134,14 +154,15 @@ def c15_run(case):
                 return 'check_cycles wrong after removing %s' % ((a, b),)
         return None
     acyc = is_acyclic(n, edges)
+    kinds = case.get('kinds')
     if case['place'] == 'pure':
-        s, jobs = build(n, edges, PureScheduler)
+        s, jobs = build(n, edges, PureScheduler, kinds=kinds)
         top = s
     elif case['place'] == 'flat':
-        s, jobs = build(n, edges, Scheduler)
+        s, jobs = build(n, edges, Scheduler, kinds=kinds)
         top = s
     else:
-        s, jobs = build(n, edges, Scheduler)
+        s, jobs = build(n, edges, Scheduler, kinds=kinds)
         a, b = J('before'), J('after')
         s.requires(a)
         b.requires(s)
@@ -398,9 +419,237 @@ def c16_run(case):
     return None
 
 
+# ----------------------------------------------------------------------------- C19
+# short programs interpreted both by the library and by a reference model of the documented
+# semantics (the model is written from the property statement, not from the code)
+def c19_gen_arg(rng, njobs, nseqs, depth=0, hashable=False):
+    """a nested argument: ('j', i) | ('s', i) | None | ('list'|'tuple'|'set', [args])"""
+    r = rng.random()
+    if depth >= 3 or r < 0.45:
+        return ('j', rng.randrange(njobs))
+    if r < 0.55:
+        return None
+    if r < 0.7 and nseqs:
+        return ('s', rng.randrange(nseqs))
+    kinds = ['tuple'] if hashable else ['list', 'tuple', 'set']
+    kind = rng.choice(kinds)
+    inner_hashable = hashable or kind == 'set'
+    return (kind, [c19_gen_arg(rng, njobs, nseqs, depth + 1, inner_hashable)
+                   for _ in range(rng.randint(0, 3))])
+
+
+def c19_gen_program(rng, nops):
+    njobs, nscheds = 6, 2
+    prog, nseqs = [], 0
+    for _ in range(nops):
+        r = rng.random()
+        flat_args = lambda k: [rng.choice([('j', rng.randrange(njobs)), None] +
+                                          ([('s', rng.randrange(nseqs))] if nseqs else []))
+                               for _ in range(rng.randint(0, k))]
+        if r < 0.25:
+            prog.append(('seq', flat_args(4), c19_gen_arg(rng, njobs, nseqs) if rng.random() < 0.5 else None,
+                         rng.randrange(nscheds) if rng.random() < 0.5 else None))
+            nseqs += 1
+        elif r < 0.45 and nseqs:
+            prog.append(('append', rng.randrange(nseqs), flat_args(3)))
+        elif r < 0.7:
+            prog.append(('requires', rng.randrange(njobs),
+                         [c19_gen_arg(rng, njobs, nseqs) for _ in range(rng.randint(0, 3))]))
+        elif r < 0.8:
+            prog.append(('unrequire', rng.randrange(njobs), rng.random() < 0.25, rng.randrange(1 << 30)))
+        elif r < 0.85 and nseqs:
+            prog.append(('seq_requires', rng.randrange(nseqs),
+                         [c19_gen_arg(rng, njobs, nseqs) for _ in range(rng.randint(0, 2))]))
+        elif r < 0.92:
+            prog.append(('add', rng.randrange(nscheds), rng.choice(flat_args(1) or [('j', 0)]) or ('j', 1)))
+        elif r < 0.97:
+            prog.append(('update', rng.randrange(nscheds), flat_args(3)))
+        else:
+            prog.append(('remove', rng.randrange(nscheds), rng.randrange(njobs)))
+    return prog
+
+
+def c19_cases(tier, rng):
+    # hand-written corner cases first (each is a statement of the property)
+    yield {'kind': 'c19-prog', 'prog': [('seq', [('j', 0)], None, None), ('append', 0, [('j', 1), ('j', 2)])]}
+    yield {'kind': 'c19-prog', 'prog': [('seq', [('j', 0)], None, None), ('append', 0, [None])]}
+    yield {'kind': 'c19-prog', 'prog': [('seq', [('j', 0), ('j', 1)], None, None),
+                                        ('requires', 2, [('s', 0)]), ('unrequire_named', 2, [('s', 0)])]}
+    k = 3000 if tier == 'quick' else 60000
+    for _ in range(k):
+        yield {'kind': 'c19-prog', 'prog': c19_gen_program(rng, rng.randint(1, 7))}
+
+
+class C19Model:
+    def __init__(self, njobs=6, nscheds=2):
+        self.req = [set() for _ in range(njobs)]
+        self.seqs = []          # list of lists of job indices
+        self.seq_sched = []
+        self.members = [set() for _ in range(nscheds)]
+
+    def flat(self, args):
+        out = []
+        for a in args:
+            if a is None:
+                continue
+            if a[0] == 'j':
+                out.append(a[1])
+            else:
+                out.extend(self.seqs[a[1]])
+        return out
+
+    def leaves(self, a):
+        if a is None:
+            return []
+        if a[0] == 'j':
+            return [a[1]]
+        if a[0] == 's':
+            return [self.seqs[a[1]][-1]] if self.seqs[a[1]] else []
+        out = []
+        for x in a[1]:
+            out.extend(self.leaves(x))
+        return out
+
+    def chain(self, jobs, start):
+        for k in range(max(start, 1), len(jobs)):
+            if jobs[k] != jobs[k - 1]:
+                self.req[jobs[k]].add(jobs[k - 1])
+
+
+def c19_realize(a, jobs, seqs):
+    if a is None:
+        return None
+    if a[0] == 'j':
+        return jobs[a[1]]
+    if a[0] == 's':
+        return seqs[a[1]]
+    items = [c19_realize(x, jobs, seqs) for x in a[1]]
+    return {'list': list, 'tuple': tuple, 'set': set}[a[0]](items)
+
+
+def c19_run(case):
+    prog = case['prog']
+    jobs = [J('j%d' % i) for i in range(6)]
+    scheds = [PureScheduler(), Scheduler()]
+    seqs = []
+    m = C19Model()
+
+    def compare(step):
+        for i, j in enumerate(jobs):
+            got = {jobs.index(r) for r in j.required if r in jobs}
+            if len(got) != len(j.required) or got != m.req[i]:
+                return 'after %r: j%d requires %s, documented semantics give %s' % (
+                    step, i, sorted(got), sorted(m.req[i]))
+        for k, sq in enumerate(seqs):
+            if [jobs.index(x) for x in sq.jobs] != m.seqs[k]:
+                return 'after %r: sequence %d holds %s, expected %s' % (
+                    step, k, [jobs.index(x) for x in sq.jobs], m.seqs[k])
+        for k, sc in enumerate(scheds):
+            got = {jobs.index(x) for x in sc.jobs}
+            if got != m.members[k] or len(sc.jobs) != len(got):
+                return 'after %r: scheduler %d holds %s, expected %s' % (step, k, sorted(got), sorted(m.members[k]))
+        return None
+
+    for op in prog:
+        op = tuple(op)
+        kind = op[0]
+        try:
+            if kind == 'seq':
+                _, args, required, sched = op
+                sq = Sequence(*[c19_realize(a, jobs, seqs) for a in args],
+                              required=c19_realize(required, jobs, seqs),
+                              scheduler=None if sched is None else scheds[sched])
+                seqs.append(sq)
+                fl = m.flat(args)
+                m.chain(fl, 1)
+                if fl:
+                    m.req[fl[0]] |= set(m.leaves(required)) - {fl[0]}
+                m.seqs.append(fl)
+                m.seq_sched.append(sched)
+                if sched is not None:
+                    m.members[sched] |= set(fl)
+            elif kind == 'append':
+                _, k, args = op
+                seqs[k].append(*[c19_realize(a, jobs, seqs) for a in args])
+                new = m.flat(args)
+                full = m.seqs[k] + new
+                m.chain(full, len(m.seqs[k]))
+                m.seqs[k] = full
+                if m.seq_sched[k] is not None:
+                    m.members[m.seq_sched[k]] |= set(new)
+            elif kind == 'requires':
+                _, i, args = op
+                r = jobs[i].requires(*[c19_realize(a, jobs, seqs) for a in args])
+                if r is not jobs[i]:
+                    return 'requires() does not return the job'
+                for a in args:
+                    m.req[i] |= set(m.leaves(a)) - {i}
+            elif kind == 'unrequire_named':
+                _, i, args = op
+                named = [x for a in args for x in m.leaves(a)]
+                jobs[i].requires(*[c19_realize(a, jobs, seqs) for a in args], remove=True)
+                m.req[i] -= set(named)
+            elif kind == 'unrequire':
+                _, i, absent, sd = op
+                r2 = random.Random(sd)
+                present = sorted(m.req[i])
+                if absent:
+                    cand = [x for x in range(6) if x not in m.req[i]]
+                    target = [('j', r2.choice(cand))]
+                    try:
+                        jobs[i].requires(*[c19_realize(a, jobs, seqs) for a in target], remove=True)
+                    except KeyError:
+                        continue
+                    return 'requires(absent, remove=True) did not raise KeyError'
+                if not present:
+                    continue
+                chosen = r2.sample(present, r2.randint(1, len(present)))
+                # name them through a nested structure
+                arg = ('list', [('j', x) for x in chosen[:1]] + [('tuple', [('j', x) for x in chosen[1:]]), None])
+                jobs[i].requires(c19_realize(arg, jobs, seqs), remove=True)
+                m.req[i] -= set(chosen)
+            elif kind == 'seq_requires':
+                _, k, args = op
+                seqs[k].requires(*[c19_realize(a, jobs, seqs) for a in args])
+                if m.seqs[k]:
+                    first = m.seqs[k][0]
+                    for a in args:
+                        m.req[first] |= set(m.leaves(a)) - {first}
+            elif kind == 'add':
+                _, k, a = op
+                scheds[k].add(c19_realize(a, jobs, seqs))
+                m.members[k] |= set(m.flat([a]))
+            elif kind == 'update':
+                _, k, args = op
+                r = scheds[k].update([c19_realize(a, jobs, seqs) for a in args])
+                if r is not scheds[k]:
+                    return 'update() does not return the scheduler'
+                m.members[k] |= set(m.flat(args))
+            elif kind == 'remove':
+                _, k, i = op
+                if i in m.members[k]:
+                    scheds[k].remove(jobs[i])
+                    m.members[k].discard(i)
+                else:
+                    try:
+                        scheds[k].remove(jobs[i])
+                    except KeyError:
+                        continue
+                    return 'remove() of a non-member did not raise KeyError'
+        except Exception as exc:
+            return 'after %r: unexpected %r' % (op, exc)
+        err = compare(op)
+        if err:
+            return err
+    return None
+
+
 PROPS = {
     'C15': (c15_cases, c15_run, 'all loop-free digraphs up to 4 (quick) / sampled 5 (thorough) nodes at three '
             'placements, random digraphs on 5-8 nodes, add/remove mutation sequences; non-trivial = at least one edge'),
+    'C19': (c19_cases, c19_run, 'random programs of 1-7 construction operations over 6 jobs, 2 schedulers, nested '
+            'list/tuple/set arguments up to depth 3, interpreted by the library and by a reference model of the documented '
+            'semantics, compared after every operation; non-trivial = every distinct program'),
     'C16': (c16_cases, c16_run, 'random scheduler trees of depth <= 3 with requirement edges inside schedulers, and (3 in 4) '
             'edges to outsiders, siblings, parents, children, nested schedulers; non-trivial = every case (seeded tree)'),
     'C17': (c17_cases, c17_run, 'all DAGs up to 4 nodes with all start sets of size <= 2, random DAGs up to 8/12 '
@@ -409,7 +658,7 @@ PROPS = {
 
 
 def nontrivial(case):
-    return bool(case.get('edges')) or case['kind'].endswith('tree') or case['kind'].endswith('op') or 'seed' in case
+    return bool(case.get('edges')) or case['kind'].endswith('tree') or case['kind'].endswith('op') or 'seed' in case or 'prog' in case
 
 
 def main(argv):
